@@ -129,13 +129,13 @@ func (e *Enc) lookupContract(fn *ssa.Function, name string) *Contract {
 			}
 		}
 	}
-	if fn.Parent() != nil {
-		// anchored closure names: parent$closure(callee)
-		pn := contractName(fn.Parent())
+	for anc := fn.Parent(); anc != nil; anc = anc.Parent() {
+		// anchored closure names: ancestor$closure(callee)
+		pn := contractName(anc)
 		for cn, c := range e.CS.Funcs {
 			if strings.HasPrefix(cn, pn+"$closure(") && strings.HasSuffix(cn, ")") {
 				anchor := cn[len(pn)+len("$closure(") : len(cn)-1]
-				if closureCalls(fn, anchor) && uniqueClosureWith(fn.Parent(), anchor) == fn {
+				if closureCalls(fn, anchor) && uniqueClosureWith(anc, anchor) == fn {
 					return c
 				}
 			}
@@ -155,7 +155,7 @@ func closureCalls(fn *ssa.Function, callee string) bool {
 					}
 					continue
 				}
-				if sc := cc.StaticCallee(); sc != nil && (sc.Name() == callee || contractName(sc) == callee) {
+				if sc := cc.StaticCallee(); sc != nil && (sc.Name() == callee || contractName(sc) == callee || strings.ReplaceAll(sc.Name(), "github.com/danthegoodman1/bloomsearch.", "") == callee) {
 					return true
 				}
 			}
@@ -164,15 +164,26 @@ func closureCalls(fn *ssa.Function, callee string) bool {
 	return false
 }
 
+// uniqueClosureWith finds the one closure nested (at any depth) in parent that
+// directly calls callee.
 func uniqueClosureWith(parent *ssa.Function, callee string) *ssa.Function {
 	var found *ssa.Function
-	for _, af := range parent.AnonFuncs {
-		if closureCalls(af, callee) {
-			if found != nil {
-				return nil
+	dup := false
+	var walk func(f *ssa.Function)
+	walk = func(f *ssa.Function) {
+		for _, af := range f.AnonFuncs {
+			if closureCalls(af, callee) {
+				if found != nil && found != af {
+					dup = true
+				}
+				found = af
 			}
-			found = af
+			walk(af)
 		}
+	}
+	walk(parent)
+	if dup {
+		return nil
 	}
 	return found
 }
@@ -957,6 +968,12 @@ func (e *Enc) staticType(x *Expr, ptypes map[string]types.Type) (types.Type, typ
 	case "ident":
 		t, ok := ptypes[x.Name]
 		if !ok {
+			// package-level variable: it lives in its own cell
+			if obj := e.L.Pkg.Pkg.Scope().Lookup(x.Name); obj != nil {
+				if v, isVar := obj.(*types.Var); isVar {
+					return v.Type(), v.Type()
+				}
+			}
 			return nil, nil
 		}
 		return t, nil
